@@ -249,6 +249,18 @@ def _stamp_sites(it, g, entries_field=None, sub=()):
             pp = param_path(cont)
             if pp and pp[0] == 1 and part == 'value' and tuple(s) == tuple(sub):
                 out.append((bb, pp[1], key))
+        elif call_name(c.term) == 'insert' and len(c.args) == 3 and c.args[0].is_mut_ref and not sub:
+            # a member that is not there yet may be entered with the clock holding exactly the dot: `insert(member, VClock::from(dot))`
+            # (VC-ACCESS/from-dot: that is the empty clock with the dot applied)
+            v = drop_lv(c.args[2].val)
+            pp = param_path(c.args[0].val)
+            from_dot = is_call(v, ('from', 'into')) and len(v[2]) == 1 and versionless(v[2][0]) == g['dot'] \
+                and 'VClock' in (cinfo(v[1])['def'] or '') + str(cinfo(v[1]).get('self_ty') or '')
+            # .. or, seen through the conversion (helper-inlining views): a fresh clock with the dot applied
+            applied = v[0] == 'post' and is_call(v[1], 'apply', self_adt='VClock') and len(v[1][2]) == 2 and versionless(v[1][2][1]) == g['dot'] \
+                and drop_lv(v[1][2][0])[0] == 'call' and call_name(drop_lv(v[1][2][0])) in ('default', 'new') and not drop_lv(v[1][2][0])[2]
+            if (from_dot or applied) and pp and pp[0] == 1 and pp[1]:
+                out.append((bb, pp[1], c.args[1].val))
     return out
 
 
@@ -302,8 +314,9 @@ def stamp(ctx):
             if start is None:
                 msg = 'loop shape not recognised'
                 continue
-            if not r.must_pass([bb], start=start, stops=(head,)):
-                p = r.escape_path([bb], start=start, stops=(head,))
+            same_loop = [b_ for b_, _p, _k in sts if b_ in blocks]
+            if not r.must_pass(same_loop, start=start, stops=(head,)):
+                p = r.escape_path(same_loop, start=start, stops=(head,))
                 msg = 'an iteration can finish without stamping the member: bb%s' % '->bb'.join(map(str, p or []))
                 continue
             if bb not in r.reachable:
